@@ -5,6 +5,7 @@ package hybridbuffer
 // hash is assumed collision-free).
 
 import (
+	"errors"
 	"os"
 
 	"github.com/relex/gotils/logger"
@@ -16,8 +17,13 @@ import (
 var verifMkdirs []string
 var verifFiles = map[string]string{}
 
+var verifMkdirFailMask int // bit i set: the i-th MkdirAll call fails
+
 func verifStubMkdirAll(path string, perm os.FileMode) error {
 	verifMkdirs = append(verifMkdirs, path)
+	if verifMkdirFailMask&(1<<(len(verifMkdirs)-1)) != 0 {
+		return errors.New("file name too long (injected)")
+	}
 	return nil
 }
 
@@ -72,6 +78,35 @@ func VerifC06_QueueDirPerId() {
 	for i := len(root) + 1; i < len(d1); i++ {
 		sym.Assert(d1[i] != '/' && d1[i] != 0, "directory name is a single clean path element")
 	}
+	if id1 == id2 {
+		sym.Reach("equal")
+	} else {
+		sym.Reach("distinct")
+	}
+}
+
+// VerifC06_QueueDirWhenMkdirFails: creating the queue directory fails (name too
+// long for the file system, read-only root, ...) for the first, the second or
+// both of two pipeline ids: the directories the two queues go on to use are
+// still the same iff the ids are equal, and neither is the root directory that
+// every queue (and the queue of the empty id) would share.
+//
+//verif:native off
+//verif:stub os.MkdirAll verifStubMkdirAll
+//verif:stub os.WriteFile verifStubWriteFile
+//verif:stub github.com/relex/slog-agent/util.MD5ToHexdigest verifStubMD5
+//verif:reach distinct equal
+func VerifC06_QueueDirWhenMkdirFails() {
+	verifMkdirs, verifFiles = nil, map[string]string{}
+	defer func() { verifMkdirFailMask = 0 }()
+	verifMkdirFailMask = 1 + sym.Choice("mkdirFailure", 3) // first, second, both
+	n1 := sym.Choice("id1Len", 3) + 1
+	n2 := sym.Choice("id2Len", 3) + 1
+	id1, id2 := sym.String("id1", n1, n1), sym.String("id2", n2, n2)
+	d1 := makeBufferQueueDir(logger.Root(), "/q", id1)
+	d2 := makeBufferQueueDir(logger.Root(), "/q", id2)
+	sym.Assert((d1 == d2) == (id1 == id2), "two pipeline ids share a queue directory iff they are equal, also when a directory cannot be created")
+	sym.Assert(d1 != "/q" && d2 != "/q", "a queue whose directory cannot be created does not fall back to the root directory shared by all queues")
 	if id1 == id2 {
 		sym.Reach("equal")
 	} else {
